@@ -70,6 +70,10 @@ GlobalGraph::Edge GlobalGraph::link(Graph::NodeId nodeA, Graph::NodeId nodeB)
   nodeMustExist_(nodeA, "first node");
   nodeMustExist_(nodeB, "second node");
 
+  // a relation holds one edge only
+  if (nodeStructure_.find(nodeA)->second.first.count(nodeB))
+    throw Exception("GlobalGraph::link : nodes " + TextTools::toString(nodeA) + " and " + TextTools::toString(nodeB) + " are already linked.");
+
   // which ID is available?
   GlobalGraph::Edge edgeID = highestEdgeID_++;
 
@@ -91,6 +95,10 @@ void GlobalGraph::link(Graph::NodeId nodeA, Graph::NodeId nodeB, GlobalGraph::Ed
   // the nodes have to exist
   nodeMustExist_(nodeA, "first node");
   nodeMustExist_(nodeB, "second node");
+
+  // a relation holds one edge only
+  if (nodeStructure_.find(nodeA)->second.first.count(nodeB))
+    throw Exception("GlobalGraph::link : nodes " + TextTools::toString(nodeA) + " and " + TextTools::toString(nodeB) + " are already linked.");
 
   // writing the new relation to the structure
   linkInNodeStructure_(nodeA, nodeB, edgeID);
